@@ -3,17 +3,18 @@
 //
 // Model checking in the bounded-exhaustive form (engine E2-space):
 //
-//	(a) sections keysets/<class>: ALL keysets of size 1 and 2 over {key types of the class} x {variants the
-//	    type admits} x {ENABLED, DISABLED, DESTROYED} x ids {0, 1, 0xFFFFFFFF (+ 0x01000000 thorough, fast classes; quick thins size 2 of the public-key classes to {1, 0xFFFFFFFF})} x material {0,1} x every
-//	    admissible primary x both orders (distinct ids), size 3 over a reduced positional alphabet;
-//	(b) sections rotation/<class> (and rotation4/<class>, thorough): BFS to fixpoint over keyset.Manager histories (Add <= 3 / 4 keys,
-//	    SetPrimary / Enable / Disable / Delete of the i-th created key); every reached state with a
-//	    primary is checked with the universe of all keys that ever existed plus foreign keys.
+//		(a) sections keysets/<class>: ALL keysets of size 1 and 2 over {key types of the class} x {variants the
+//		    type admits} x {ENABLED, DISABLED, DESTROYED} x ids {0, 1, 0xFFFFFFFF (+ 0x01000000 thorough, fast classes; quick thins size 2 of the public-key classes to {1, 0xFFFFFFFF})} x material {0,1} x every
+//		    admissible primary x both orders (distinct ids), size 3 over a reduced positional alphabet;
+//		(b) sections rotation/<class> (and rotation4/<class>, thorough): BFS to fixpoint over keyset.Manager histories (Add <= 3 / 4 keys,
+//		    SetPrimary / Enable / Disable / Delete of the i-th created key); every reached state with a
+//		    primary is checked with the universe of all keys that ever existed plus foreign keys.
 //
-//   (c) sections collision/<class> (AEAD, DAEAD, MAC, signature, hybrid - the prefix-map wrappers): for every RAW
-//       key type an output starting with 0x01 / 0x00 is searched (<= 4000 messages / entropy-tape seeds); the
-//       OTHER key's id is chosen after the fact so that the RAW output carries its TINK / CRUNCHY / LEGACY
-//       prefix; keysets [P,R] / [R,P] with either primary and 3-key shapes with the colliding key DISABLED.
+//	  (c) sections collision/<class> (AEAD, DAEAD, MAC, signature, hybrid - the prefix-map wrappers): for every RAW
+//	      key type an output starting with 0x01 / 0x00 is searched (<= 4000 messages / entropy-tape seeds); the
+//	      OTHER key's id is chosen after the fact so that the RAW output carries its TINK / CRUNCHY / LEGACY
+//	      prefix; keysets [P,R] / [R,P] with either primary and 3-key shapes with the colliding key DISABLED.
+//
 // For every keyset the wrapped primitive is built with tink's factory, its output is judged (framing
 // of the primary; accepted by exactly the single-key primitives the model names) and it is probed
 // with outputs of EVERY key of a universe (the keyset's keys and foreign keys: same id+variant but
